@@ -11,7 +11,7 @@ from ..pool import guarded, run_cases
 THEOREMS = ["C14_name_sanitised", "C14_merge_nodup", "C14_signature_once", "C14_examples"]
 ALLOWED_KEYS = {"typ", "doc", "default", "x_typ"}
 STYLES = ("rest", "google", "numpydoc")
-PNAMES = ["alpha", "beta", "gamma", "delta", "eps", "zeta"]
+PNAMES = ["alpha", "beta", "gamma", "delta", "eps", "zeta", "return_type", "returns", "type"]
 TYPES = ["int", "str", "float", "bool", "Optional[int]", "List[str]", "Literal['a', 'b']", "dict", "np.ndarray",
          "Union[int, str]", "Callable[[int], str]"]
 DESCS = ["the value", "how many items\n        to take, continued on a second line", "Either `a` or `b`.", "number of things",
